@@ -543,6 +543,18 @@ impl ASN1Type {
                     }
                 }
             }
+            ASN1Type::Integer(i) => {
+                // The named numbers of an INTEGER are in scope in its own constraints, whatever
+                // other definitions declare under the same names
+                if let Some(own) = &i.distinguished_values {
+                    for c in i.constraints.iter_mut() {
+                        c.link_named_numbers(own);
+                    }
+                }
+                for c in i.constraints.iter_mut() {
+                    c.link_cross_reference(name, tlds)?;
+                }
+            }
             ty => {
                 if let Some(c) = ty.constraints_mut() {
                     for c in c.iter_mut() {
